@@ -1270,6 +1270,11 @@ func runC35GoGo(p *c35Plan) (string, c35Stats, error) {
 		})
 	}
 	join := func(res mx.Result, what string) (string, c35Stats, error) {
+		if res.Verdict == mx.Deadlock && viol.Load() == nil {
+			// report the stall itself, not the read errors that closing the link is about to cause
+			path := writeDump("C35", res.Dump)
+			fail("Go<->Go %s: blocked forever although both applications keep reading (all goroutines parked; dump %s): %s", what, path, strings.Join(res.Parked, " | "))
+		}
 		closeBoth()
 		end := watch.Wait(all.doneChan())
 		watch.Wait(work.doneChan())
